@@ -7,5 +7,7 @@ N1 == {"a"}
 N2 == {"a", ""}
 N3 == {"a", "b", ""}
 AllOps == {"inst", "close", "lookup", "rtclose", "compile", "hostcompile"}
+StartsBoth == {"none", "exit"}
+StartsNone == {"none"}
 CoreOps == {"inst", "close", "lookup", "rtclose"}
 =============================================================================
